@@ -120,9 +120,9 @@ fn emit(w: &dyn Recorder, kind: u64) -> Option<Counter> {
         2 => {
             let _ = w.register_histogram(&key, &MD);
         }
-        3 => w.describe_counter(KeyName::from_const_str("c20"), None, SharedString::const_str("d")),
-        4 => w.describe_gauge(KeyName::from_const_str("c20"), Some(Unit::Count), SharedString::const_str("d")),
-        _ => w.describe_histogram(KeyName::from_const_str("c20"), None, SharedString::const_str("d")),
+        3 => w.describe_counter(KeyName::from_const_str("c20"), None, SharedString::const_str(if kind % 12 == 3 { "d" } else { "" })),
+        4 => w.describe_gauge(KeyName::from_const_str("c20"), Some(Unit::Count), SharedString::const_str(if kind % 12 == 4 { "" } else { "d" })),
+        _ => w.describe_histogram(KeyName::from_const_str("c20"), None, SharedString::const_str(if kind % 12 == 5 { "d" } else { "" })),
     }
     None
 }
@@ -186,7 +186,7 @@ fn run_trials(a: &Args) -> Report {
                     let id = nid.fetch_add(1, Ordering::SeqCst);
                     CUR_EMISSION.with(|c| c.set(id));
                     let call = o.stamp.fetch_add(1, Ordering::SeqCst);
-                    if let Some(h) = emit(&*w, r.below(6)) {
+                    if let Some(h) = emit(&*w, r.below(12)) {
                         handles.push((h, call));
                     }
                     let ret = o.stamp.fetch_add(1, Ordering::SeqCst);
@@ -206,21 +206,29 @@ fn run_trials(a: &Args) -> Report {
             if recover_by_drop {
                 drop(handle);
             } else {
-                let rec = handle.into_inner();
-                // finalisation begins the moment into_inner returns
-                inside_at_return = o2.inside.load(Ordering::SeqCst);
-                o2.finalised.store(true, Ordering::SeqCst);
-                let intact = rec.canary == 0xC20C20;
-                std::thread::yield_now();
-                drop(rec);
-                if !intact {
-                    inside_at_return += 1000;
+                match rt::catch(move || handle.into_inner()) {
+                    Ok(rec) => {
+                        // finalisation begins the moment into_inner returns
+                        inside_at_return = o2.inside.load(Ordering::SeqCst);
+                        o2.finalised.store(true, Ordering::SeqCst);
+                        let intact = rec.canary == 0xC20C20;
+                        std::thread::yield_now();
+                        drop(rec);
+                        if !intact {
+                            inside_at_return += 1000;
+                        }
+                    }
+                    Err(m) => {
+                        // recovery must hand the recorder back, not panic
+                        o2.finalised.store(true, Ordering::SeqCst);
+                        return (call, o2.stamp.fetch_add(1, Ordering::SeqCst), usize::MAX, Some(m));
+                    }
                 }
             }
             let ret = o2.stamp.fetch_add(1, Ordering::SeqCst);
-            (call, ret, inside_at_return)
+            (call, ret, inside_at_return, None)
         });
-        let (rcall, rret, inside_at_return) = rh.join().unwrap();
+        let (rcall, rret, inside_at_return, recover_panic): (u64, u64, usize, Option<String>) = rh.join().unwrap();
         let mut emissions = Vec::new();
         let mut handles = Vec::new();
         for h in hs {
@@ -258,6 +266,10 @@ fn run_trials(a: &Args) -> Report {
         let mut fail = |sig: &str, what: &str, extra: J| {
             rep.violation(sig, jo! {"what" => what, "trial" => desc.clone(), "recovery_call" => rcall, "recovery_return" => rret, "detail" => extra});
         };
+        if let Some(m) = &recover_panic {
+            fail("C20:into_inner-panicked", "into_inner panicked instead of waiting and handing the recorder back", J::s(m.clone()));
+            continue;
+        }
         if obs.entered_after_final.load(Ordering::SeqCst) > 0 {
             fail("C20:call-entered-after-finalisation", "a call entered the wrapped recorder after its finalisation began", J::U(obs.entered_after_final.load(Ordering::SeqCst) as u64));
         }
